@@ -1571,6 +1571,10 @@ class Wtp:
                         self.expand_stack.append("ARGVAL-{}".format(k))
                         arg = expand_recurse(arg, parent, True)
                         self.expand_stack.pop()
+                        if m2:
+                            # Named values are trimmed after expansion too
+                            # (whitespace may come from a nested expansion)
+                            arg = arg.strip()
                         ht[k] = arg
 
                     # Expand the body, either using ``template_fn`` or using
